@@ -6,19 +6,24 @@
   the real code by the `share` / `conn` correspondence kinds. Every theorem below is for EVERY
   configuration `cfg` (connector kind, the three reset flags, and what each upstream subscription
   plays synchronously inside `Subscribe`) and EVERY event sequence `evs` over
-  {sub, unsub i, src Next / Error / Complete} — by induction through the invariant
-  `Ro.Share.Inv` (RoProofs/ShareBasic.lean; preserved by every event: RoProofs/ShareInv.lean,
-  ShareSub.lean) — resp. {sub, unsub i, src, connect, disconnect} for the connectable.
+  {sub, unsub i, src Next / Error / Complete} **including events nested inside the source's
+  `Subscribe`** (`NEvent.subNested inner`, depth one: `nrun`; plain sequences are the special case
+  `plain_runs`) — by induction through the invariant `Ro.Share.Inv` (RoProofs/ShareBasic.lean), which
+  carries a pending creator (`Pend`) between the inner events and is `Inv Pend.idle` between top-level
+  events (ShareInv.lean, ShareSub.lean, ShareNested.lean) — resp. {sub, unsub i, src, connect,
+  disconnect} for the connectable.
 
   History: the pinned tree re-read the shared `sourceSubscription` without `mu` at the end of R3 and
   dereferenced nil when a synchronous terminal had already reset it (DESIGN.md C07(iv)), leaking the
   subscriber's reference; fix commit a510ca9 uses the local `currentSourceSubscription`. The repaired
   behaviour is the model (`r3tail`); `nilDeref_regression` shows the model does not do that any more, and
   the correspondence reports the old behaviour as a difference if it returns.
-  Still open (outside the universal theorems, which quantify over plain event sequences): the late
-  release under concurrency / a re-entrant source, `lateRelease_witness`.
+  The one clause that is false under nesting is "nobody listens ⇒ released" (`ResetOnRefCountZero`):
+  `released_when_unlistened_partial` holds on the nested sequences in which no other subscriber
+  arrives inside the source's `Subscribe` (`NEvent.noInnerSub`, decidable; every plain sequence
+  qualifies: `released_when_unlistened`); outside it, `lateRelease_witness` (open finding).
 -/
-import RoProofs.ShareProps
+import RoProofs.ShareRelease
 import RoProofs.ConnectableProofs
 namespace Ro.C11
 open Ro.Share
@@ -26,117 +31,130 @@ open Ro.Share
 /-! ## ShareWithConfig -/
 
 /-- every reachable state satisfies the invariant the other theorems rest on -/
-theorem share_invariant (cfg : Cfg) (evs : List Event) : Inv (run cfg evs) := inv_run cfg evs
+theorem share_invariant (cfg : Cfg) (evs : List NEvent) : Inv Pend.idle (nrun cfg evs) := inv_nrun cfg evs
 
 /-- **at most one live upstream subscription, at any time** (after every prefix of every event
     sequence: `evs` is arbitrary) -/
-theorem upstream_at_most_one (cfg : Cfg) (evs : List Event) : (run cfg evs).live ≤ 1 :=
-  live_le_one_of_inv (inv_run cfg evs)
+theorem upstream_at_most_one (cfg : Cfg) (evs : List NEvent) : (nrun cfg evs).live ≤ 1 :=
+  live_le_one_of_inv (inv_nrun cfg evs)
 
 /-- … and it is live whenever somebody listens -/
-theorem upstream_live_while_listened (cfg : Cfg) (evs : List Event) (h : openSubs (run cfg evs) ≠ []) :
-    (run cfg evs).live = 1 := open_imp_live (inv_run cfg evs) h
+theorem upstream_live_while_listened (cfg : Cfg) (evs : List NEvent) (h : openSubs (nrun cfg evs) ≠ []) :
+    (nrun cfg evs).live = 1 := open_imp_live (inv_nrun cfg evs) h
 
 /-- **refCount = number of live subscribers** — every configuration, every synchronous prefix,
     every event sequence -/
-theorem refCount_eq (cfg : Cfg) (evs : List Event) :
-    (run cfg evs).refCount = (openSubs (run cfg evs)).length := (inv_run cfg evs).count
+theorem refCount_eq (cfg : Cfg) (evs : List NEvent) :
+    (nrun cfg evs).refCount = (openSubs (nrun cfg evs)).length := (inv_nrun cfg evs).count
 
 /-- **upstream subscribed at 0→1, joined otherwise**: a new subscriber subscribes the source iff
     there is no current generation, and then exactly once -/
-theorem subscribe_upstream_iff_no_generation (cfg : Cfg) (evs : List Event) :
-    (step cfg (run cfg evs) .sub).total =
-      if (run cfg evs).subject = none then (run cfg evs).total + 1 else (run cfg evs).total :=
-  sub_total cfg (inv_run cfg evs)
+theorem subscribe_upstream_iff_no_generation (cfg : Cfg) (evs : List NEvent) :
+    (step cfg (nrun cfg evs) .sub).total =
+      if (nrun cfg evs).subject = none then (nrun cfg evs).total + 1 else (nrun cfg evs).total :=
+  sub_total cfg (inv_nrun cfg evs)
 
 /-- later subscribers join the running execution instead of restarting it -/
-theorem later_subscribers_join (cfg : Cfg) (evs : List Event) (g : Nat) (h : (run cfg evs).subject = some g) :
-    (step cfg (run cfg evs) .sub).live = (run cfg evs).live ∧ (step cfg (run cfg evs) .sub).subject = some g ∧
-    (step cfg (run cfg evs) .sub).total = (run cfg evs).total := by
-  have := sub_join_live cfg (inv_run cfg evs) h
+theorem later_subscribers_join (cfg : Cfg) (evs : List NEvent) (g : Nat) (h : (nrun cfg evs).subject = some g) :
+    (step cfg (nrun cfg evs) .sub).live = (nrun cfg evs).live ∧ (step cfg (nrun cfg evs) .sub).subject = some g ∧
+    (step cfg (nrun cfg evs) .sub).total = (nrun cfg evs).total := by
+  have := sub_join_live cfg (inv_nrun cfg evs) h
   refine ⟨this.1, this.2, ?_⟩
   rw [subscribe_upstream_iff_no_generation, h]; simp
 
 /-- … and what the joiner receives at once is what the connector hands out on subscription
     (nothing / the last value / the buffered values); nobody else's record changes -/
-theorem joiner_receives_connector_replay (cfg : Cfg) (evs : List Event) (g : Nat)
-    (h : (run cfg evs).subject = some g) (ha : GenActive (run cfg evs) g) :
-    ((step cfg (run cfg evs) .sub).subs (run cfg evs).nsubs).trace = Spec.joined cfg.conn ((run cfg evs).gens g).subj ∧
-    ((step cfg (run cfg evs) .sub).subs (run cfg evs).nsubs).status = 0 ∧
-    (∀ k, k ≠ (run cfg evs).nsubs → (step cfg (run cfg evs) .sub).subs k = (run cfg evs).subs k) := by
-  have := join_active_trace cfg (inv_run cfg evs) h ha
+theorem joiner_receives_connector_replay (cfg : Cfg) (evs : List NEvent) (g : Nat)
+    (h : (nrun cfg evs).subject = some g) (ha : GenActive Pend.idle (nrun cfg evs) g) :
+    ((step cfg (nrun cfg evs) .sub).subs (nrun cfg evs).nsubs).trace = Spec.joined cfg.conn ((nrun cfg evs).gens g).subj ∧
+    ((step cfg (nrun cfg evs) .sub).subs (nrun cfg evs).nsubs).status = 0 ∧
+    (∀ k, k ≠ (nrun cfg evs).nsubs → (step cfg (nrun cfg evs) .sub).subs k = (nrun cfg evs).subs k) := by
+  have := join_active_trace cfg (inv_nrun cfg evs) h ha
   exact ⟨this.1, this.2.1, this.2.2.1⟩
 
 /-- **released at 1→0 iff ResetOnRefCountZero** (no terminal latched: a listener is open, so the
     generation is live): the last listener leaves ⇒ upstream released, shared pair cleared -/
-theorem last_unsubscribe_releases (cfg : Cfg) (evs : List Event) (i : Nat)
-    (hz : cfg.flags.onZero = true) (ho : openSubs (run cfg evs) = [i]) :
-    (step cfg (run cfg evs) (.unsub i)).live = 0 ∧ (step cfg (run cfg evs) (.unsub i)).subject = none :=
-  unsub_last_releases cfg (inv_run cfg evs) hz ho
+theorem last_unsubscribe_releases (cfg : Cfg) (evs : List NEvent) (i : Nat)
+    (hz : cfg.flags.onZero = true) (ho : openSubs (nrun cfg evs) = [i]) :
+    (step cfg (nrun cfg evs) (.unsub i)).live = 0 ∧ (step cfg (nrun cfg evs) (.unsub i)).subject = none :=
+  unsub_last_releases cfg (inv_nrun cfg evs) hz ho
 
 /-- … and without `ResetOnRefCountZero`, or while another listener stays, `unsub` never touches
     the upstream subscription -/
-theorem unsubscribe_keeps_upstream (cfg : Cfg) (evs : List Event) (i : Nat)
-    (h : cfg.flags.onZero = false ∨ 2 ≤ (openSubs (run cfg evs)).length) :
-    (step cfg (run cfg evs) (.unsub i)).live = (run cfg evs).live ∧
-    (step cfg (run cfg evs) (.unsub i)).total = (run cfg evs).total ∧
-    (step cfg (run cfg evs) (.unsub i)).subject = (run cfg evs).subject :=
-  unsub_keeps cfg i (inv_run cfg evs) h
+theorem unsubscribe_keeps_upstream (cfg : Cfg) (evs : List NEvent) (i : Nat)
+    (h : cfg.flags.onZero = false ∨ 2 ≤ (openSubs (nrun cfg evs)).length) :
+    (step cfg (nrun cfg evs) (.unsub i)).live = (nrun cfg evs).live ∧
+    (step cfg (nrun cfg evs) (.unsub i)).total = (nrun cfg evs).total ∧
+    (step cfg (nrun cfg evs) (.unsub i)).subject = (nrun cfg evs).subject :=
+  unsub_keeps cfg i (inv_nrun cfg evs) h
 
 /-- **after the source terminates**: nobody stays open, the upstream subscription is gone; the shared
     pair is cleared iff the flags reset on that terminal (so the next subscriber starts a fresh
     execution, `subscribe_upstream_iff_no_generation`), otherwise the generation is latched with the
     terminal stored -/
-theorem after_source_terminal (cfg : Cfg) (evs : List Event) (g : Nat) (t : Ev) (ht : t.isTerminal = true)
-    (h : (run cfg evs).subject = some g) (ha : GenActive (run cfg evs) g) :
-    (step cfg (run cfg evs) (.src t)).live = 0 ∧ openSubs (step cfg (run cfg evs) (.src t)) = [] ∧
-    (step cfg (run cfg evs) (.src t)).subject = (if cfg.flags.resetsOn t then none else some g) ∧
-    (step cfg (run cfg evs) (.src t)).total = (run cfg evs).total ∧
-    (cfg.flags.resetsOn t = false → GenLatched (step cfg (run cfg evs) (.src t)) g ∧
-      ((step cfg (run cfg evs) (.src t)).gens g).subj.status = Status.ofTerminal t ∧
-      ((step cfg (run cfg evs) (.src t)).gens g).subj.buf = ((run cfg evs).gens g).subj.buf) :=
-  src_terminal cfg t ht (inv_run cfg evs) h ha
+theorem after_source_terminal (cfg : Cfg) (evs : List NEvent) (g : Nat) (t : Ev) (ht : t.isTerminal = true)
+    (h : (nrun cfg evs).subject = some g) (ha : GenActive Pend.idle (nrun cfg evs) g) :
+    (step cfg (nrun cfg evs) (.src t)).live = 0 ∧ openSubs (step cfg (nrun cfg evs) (.src t)) = [] ∧
+    (step cfg (nrun cfg evs) (.src t)).subject = (if cfg.flags.resetsOn t then none else some g) ∧
+    (step cfg (nrun cfg evs) (.src t)).total = (nrun cfg evs).total ∧
+    (cfg.flags.resetsOn t = false → GenLatched Pend.idle (step cfg (nrun cfg evs) (.src t)) g ∧
+      ((step cfg (nrun cfg evs) (.src t)).gens g).subj.status = Status.ofTerminal t ∧
+      ((step cfg (nrun cfg evs) (.src t)).gens g).subj.buf = ((nrun cfg evs).gens g).subj.buf) :=
+  src_terminal cfg t ht (inv_nrun cfg evs) h ha
 
 /-- **replayed execution**: a subscriber arriving at a latched generation receives the connector's
     stored values (replay) and the stored terminal, no upstream subscription is made, nothing else
     changes … -/
-theorem latched_subscriber_is_replayed (cfg : Cfg) (evs : List Event) (g : Nat)
-    (h : (run cfg evs).subject = some g) (hl : GenLatched (run cfg evs) g) :
-    ((step cfg (run cfg evs) .sub).subs (run cfg evs).nsubs).trace = Spec.late cfg.conn ((run cfg evs).gens g).subj ∧
-    (step cfg (run cfg evs) .sub).gens = (run cfg evs).gens ∧
-    (step cfg (run cfg evs) .sub).total = (run cfg evs).total ∧ (step cfg (run cfg evs) .sub).live = 0 := by
-  have h1 := latched_sub cfg (inv_run cfg evs) h hl
-  have h2 := latched_forever cfg (inv_run cfg evs) h hl .sub
+theorem latched_subscriber_is_replayed (cfg : Cfg) (evs : List NEvent) (g : Nat)
+    (h : (nrun cfg evs).subject = some g) (hl : GenLatched Pend.idle (nrun cfg evs) g) :
+    ((step cfg (nrun cfg evs) .sub).subs (nrun cfg evs).nsubs).trace = Spec.late cfg.conn ((nrun cfg evs).gens g).subj ∧
+    (step cfg (nrun cfg evs) .sub).gens = (nrun cfg evs).gens ∧
+    (step cfg (nrun cfg evs) .sub).total = (nrun cfg evs).total ∧ (step cfg (nrun cfg evs) .sub).live = 0 := by
+  have h1 := latched_sub cfg (inv_nrun cfg evs) h hl
+  have h2 := latched_forever cfg (inv_nrun cfg evs) h hl .sub
   exact ⟨h1.1, h1.2.2.2, h2.2.2.2.2, h2.2.2.2.1⟩
 
 /-- … for ever: whatever event follows, the generation stays latched with the same stored state -/
-theorem latched_is_absorbing (cfg : Cfg) (evs : List Event) (g : Nat) (e : Event)
-    (h : (run cfg evs).subject = some g) (hl : GenLatched (run cfg evs) g) :
-    (step cfg (run cfg evs) e).subject = some g ∧ GenLatched (step cfg (run cfg evs) e) g ∧
-    (step cfg (run cfg evs) e).gens = (run cfg evs).gens ∧ (step cfg (run cfg evs) e).live = 0 ∧
-    (step cfg (run cfg evs) e).total = (run cfg evs).total :=
-  latched_forever cfg (inv_run cfg evs) h hl e
+theorem latched_is_absorbing (cfg : Cfg) (evs : List NEvent) (g : Nat) (e : Event)
+    (h : (nrun cfg evs).subject = some g) (hl : GenLatched Pend.idle (nrun cfg evs) g) :
+    (step cfg (nrun cfg evs) e).subject = some g ∧ GenLatched Pend.idle (step cfg (nrun cfg evs) e) g ∧
+    (step cfg (nrun cfg evs) e).gens = (nrun cfg evs).gens ∧ (step cfg (nrun cfg evs) e).live = 0 ∧
+    (step cfg (nrun cfg evs) e).total = (nrun cfg evs).total :=
+  latched_forever cfg (inv_nrun cfg evs) h hl e
 
 /-- **fresh execution** (hot source): the creator of a generation receives only what a brand-new
     connector hands out, the source is subscribed (live = 1), nobody else's record changes -/
-theorem fresh_execution_hot (cfg : Cfg) (hhot : cfg.Hot) (evs : List Event) (h : (run cfg evs).subject = none) :
-    ((step cfg (run cfg evs) .sub).subs (run cfg evs).nsubs).trace = Spec.joined cfg.conn (Subj.new cfg.conn) ∧
-    ((step cfg (run cfg evs) .sub).subs (run cfg evs).nsubs).status = 0 ∧
-    (∀ k, k ≠ (run cfg evs).nsubs → (step cfg (run cfg evs) .sub).subs k = (run cfg evs).subs k) ∧
-    (step cfg (run cfg evs) .sub).subject = some (run cfg evs).ngens ∧ (step cfg (run cfg evs) .sub).live = 1 :=
-  fresh_hot_trace cfg hhot (inv_run cfg evs) h
+theorem fresh_execution_hot (cfg : Cfg) (hhot : cfg.Hot) (evs : List NEvent) (h : (nrun cfg evs).subject = none) :
+    ((step cfg (nrun cfg evs) .sub).subs (nrun cfg evs).nsubs).trace = Spec.joined cfg.conn (Subj.new cfg.conn) ∧
+    ((step cfg (nrun cfg evs) .sub).subs (nrun cfg evs).nsubs).status = 0 ∧
+    (∀ k, k ≠ (nrun cfg evs).nsubs → (step cfg (nrun cfg evs) .sub).subs k = (nrun cfg evs).subs k) ∧
+    (step cfg (nrun cfg evs) .sub).subject = some (nrun cfg evs).ngens ∧ (step cfg (nrun cfg evs) .sub).live = 1 :=
+  fresh_hot_trace cfg hhot (inv_nrun cfg evs) h
 
 /-- **all current subscribers receive the same notifications**: a source notification is appended,
     exactly once, to the trace of every open subscriber and of nobody else -/
-theorem same_notifications (cfg : Cfg) (evs : List Event) (x : Ev) (k : Nat) (hk : k < (run cfg evs).nsubs) :
-    ((step cfg (run cfg evs) (.src x)).subs k).trace =
-      if ((run cfg evs).subs k).status = 0 then ((run cfg evs).subs k).trace ++ [x] else ((run cfg evs).subs k).trace :=
-  src_uniform cfg (inv_run cfg evs) x k hk
+theorem same_notifications (cfg : Cfg) (evs : List NEvent) (x : Ev) (k : Nat) (hk : k < (nrun cfg evs).nsubs) :
+    ((step cfg (nrun cfg evs) (.src x)).subs k).trace =
+      if ((nrun cfg evs).subs k).status = 0 then ((nrun cfg evs).subs k).trace ++ [x] else ((nrun cfg evs).subs k).trace :=
+  src_uniform cfg (inv_nrun cfg evs) x k hk
 
 /-- `unsub` never rewrites anybody's trace -/
-theorem unsubscribe_keeps_traces (cfg : Cfg) (evs : List Event) (i k : Nat) :
-    ((step cfg (run cfg evs) (.unsub i)).subs k).trace = ((run cfg evs).subs k).trace :=
-  unsub_traces cfg (run cfg evs) i k
+theorem unsubscribe_keeps_traces (cfg : Cfg) (evs : List NEvent) (i k : Nat) :
+    ((step cfg (nrun cfg evs) (.unsub i)).subs k).trace = ((nrun cfg evs).subs k).trace :=
+  unsub_traces cfg (nrun cfg evs) i k
+
+/-- **nobody listens ⇒ released** (`ResetOnRefCountZero`), `_partial`: every nested sequence in which
+    no other subscriber arrives inside the source's `Subscribe` (inner unsubscribes, source values and
+    terminals are allowed). Full statement — the same without `hev` — is FALSE on the current tree:
+    `lateRelease_witness` (an inner `sub` after an inner terminal; `lateRelease_outside_domain`). -/
+theorem released_when_unlistened_partial (cfg : Cfg) (hz : cfg.flags.onZero = true) (evs : List NEvent)
+    (hev : ∀ e, e ∈ evs → e.noInnerSub = true) (ho : openSubs (nrun cfg evs) = []) : (nrun cfg evs).live = 0 :=
+  released_of_listened (inv_nrun cfg evs) (listened_nrun cfg hz evs hev) ho
+
+/-- … in particular every plain event sequence -/
+theorem released_when_unlistened (cfg : Cfg) (hz : cfg.flags.onZero = true) (evs : List Event)
+    (ho : openSubs (run cfg evs) = []) : (run cfg evs).live = 0 :=
+  released_of_listened (inv_run cfg evs) (listened_run cfg hz evs) ho
 
 /-! ### regression examples for the repaired nil dereference (fix a510ca9) -/
 
@@ -175,6 +193,10 @@ theorem lateRelease_witness :
     openSubs (nrun shareHot [.subNested [.src (.error (.user 1)), .sub, .unsub 1], .plain (.unsub 0)]) = [] ∧
     (nrun shareHot [.subNested [.src (.error (.user 1)), .sub, .unsub 1], .plain (.unsub 0)]).live = 1 ∧
     (nrun shareHot [.subNested [.src (.error (.user 1)), .sub, .unsub 1], .plain (.unsub 0)]).refCount = 0 := by decide
+
+/-- the witness lies outside the `_partial` domain: a subscriber arrives inside the source's `Subscribe` -/
+theorem lateRelease_outside_domain :
+    (NEvent.subNested [.src (.error (.user 1)), .sub, .unsub 1]).noInnerSub = false := by decide
 
 /-- plain runs are what the driver executes for plain case lines -/
 theorem plain_runs (cfg : Cfg) (evs : List Event) : nrun cfg (evs.map NEvent.plain) = run cfg evs := nrun_plain cfg evs
@@ -256,7 +278,10 @@ end Ro.C11
 #print axioms Ro.C11.same_notifications
 #print axioms Ro.C11.unsubscribe_keeps_traces
 #print axioms Ro.C11.nilDeref_regression
+#print axioms Ro.C11.released_when_unlistened_partial
+#print axioms Ro.C11.released_when_unlistened
 #print axioms Ro.C11.lateRelease_witness
+#print axioms Ro.C11.lateRelease_outside_domain
 #print axioms Ro.C11.plain_runs
 #print axioms Ro.C11.connectable_upstream_at_most_one
 #print axioms Ro.C11.connectable_nothing_before_connect
